@@ -76,6 +76,11 @@ pub struct Case {
     /// it (directly or through a relay gate, in either orientation) before the message departs; (delay us, flipped, relay)
     #[serde(default)]
     pub late_connect: Option<(u16, bool, bool)>,
+    /// two more small simulations over a single hop: (a) a module that shut itself down sends from the start-up
+    /// stage of its restart; (b) a byte-bounded queueing channel that overflowed once still carries a later burst
+    /// that fits. The value is the body size used in (b).
+    #[serde(default)]
+    pub restart_and_bounded_queue: Option<u8>,
 }
 
 pub struct C08;
@@ -196,6 +201,88 @@ impl Module for LatePeer {
     }
 }
 
+struct Phoenix {
+    inc: u8,
+}
+impl Module for Phoenix {
+    fn at_sim_start(&mut self, _: usize) {
+        self.inc += 1;
+        if self.inc == 1 {
+            schedule_in(Message::default().kind(1), Duration::from_millis(1));
+        } else {
+            // a restarted module can use its gates right away
+            send(Message::default().kind(2).id(9), "out");
+        }
+    }
+    fn handle_message(&mut self, msg: Message) {
+        if msg.header().kind == 1 {
+            current().shutdow_and_restart_in(Duration::from_millis(2));
+        }
+    }
+}
+
+struct Burster {
+    body: usize,
+}
+impl Module for Burster {
+    fn at_sim_start(&mut self, _: usize) {
+        schedule_in(Message::default().kind(1).id(0), Duration::ZERO);
+        schedule_in(Message::default().kind(1).id(10), Duration::from_secs(100));
+    }
+    fn handle_message(&mut self, msg: Message) {
+        let base = msg.header().id;
+        // the first burst overruns the queue by one message, the second one fits
+        let n = if base == 0 { 4 } else { 3 };
+        for k in 1..=n {
+            send(Message::default().kind(2).id(base + k).with_content(vec![0u8; self.body]), "out");
+        }
+    }
+}
+
+/// (a) send from the start-up stage of a restart, (b) bounded queue after an overflow.
+fn restart_and_bounded_queue_scenario(body: u8) -> Result<(), Failure> {
+    // (a)
+    net::log_clear();
+    let mut sim = Sim::new(());
+    sim.node("late_a", Phoenix { inc: 0 });
+    sim.node("late_b", LatePeer);
+    sim.gate("late_a", "out").connect(sim.gate("late_b", "in"), None);
+    let rt = Builder::seeded(3).quiet().max_itr(1_000).build(sim.freeze());
+    let res = rt.run();
+    let log = net::log_take();
+    let ok = res.is_ok();
+    drop(res);
+    vensure!(ok, "run-returned-error", "restart-send scenario: run() returned an error");
+    let arrivals: Vec<(String, String, u128, i64)> = log.iter().filter(|r| r.kind.starts_with("late-recv")).map(|r| (r.path.clone(), r.kind.clone(), r.now, r.a)).collect();
+    vensure!(
+        arrivals == vec![("late_b".to_string(), "late-recv via late_b.in".to_string(), 3_000_000, 9)],
+        if arrivals.is_empty() { "message-lost" } else { "delivered-to-wrong-module" },
+        "a module that shut down at 1 ms and restarted at 3 ms sent message 9 from the start-up stage of its restart; deliveries: {arrivals:?}, expected once at late_b via late_b.in at 3 ms"
+    );
+    // (b)
+    net::log_clear();
+    let len = 64 + body as usize;
+    let mut sim = Sim::new(());
+    sim.node("late_a", Burster { body: body as usize });
+    sim.node("late_b", LatePeer);
+    let ch = Channel::new(ChannelMetrics::new(8_000, Duration::ZERO, Duration::ZERO, ChannelDropBehaviour::Queue(Some(2 * len))));
+    sim.gate("late_a", "out").connect(sim.gate("late_b", "in"), Some(ch));
+    let rt = Builder::seeded(3).quiet().max_itr(1_000).build(sim.freeze());
+    let res = rt.run();
+    let log = net::log_take();
+    let ok = res.is_ok();
+    drop(res);
+    vensure!(ok, "run-returned-error", "bounded-queue scenario: run() returned an error");
+    let mut got: Vec<i64> = log.iter().filter(|r| r.kind.starts_with("late-recv") && r.path == "late_b").map(|r| r.a).collect();
+    got.retain(|id| *id != 4); // whether the overrunning message is dropped is C07's subject
+    vensure!(
+        got == vec![1, 2, 3, 11, 12, 13],
+        if got.len() < 6 { "message-lost" } else { "message-duplicated" },
+        "queueing channel with a byte limit of two messages ({len} bytes each): a burst of 4 (one more than fits) and, 100 s later, a burst of 3 (which fits); deliveries besides #4: {got:?}, expected [1, 2, 3, 11, 12, 13]"
+    );
+    Ok(())
+}
+
 /// The delayed send whose chain is completed between the request and the departure.
 fn late_connect_scenario(delay_us: u16, flipped: bool, relay: bool) -> Result<(), Failure> {
     net::log_clear();
@@ -226,6 +313,9 @@ fn late_connect_scenario(delay_us: u16, flipped: bool, relay: bool) -> Result<()
 pub fn run_case(case: &Case) -> Result<(bool, Vec<&'static str>), Failure> {
     if let Some((d, flipped, relay)) = case.late_connect {
         late_connect_scenario(d, flipped, relay)?;
+    }
+    if let Some(body) = case.restart_and_bounded_queue {
+        restart_and_bounded_queue_scenario(body)?;
     }
     let k = case.gates.len().saturating_sub(1);
     if k == 0 {
@@ -568,6 +658,9 @@ pub fn run_case(case: &Case) -> Result<(bool, Vec<&'static str>), Failure> {
     if case.late_connect.is_some() {
         labels.push("chain-connected-between-send-request-and-departure");
     }
+    if case.restart_and_bounded_queue.is_some() {
+        labels.push("send-from-restart-stage+bounded-queue-after-overflow");
+    }
     if slots.windows(2).any(|w| w[0] == w[1]) {
         labels.push("simultaneous-opposite-traffic");
     }
@@ -582,7 +675,7 @@ impl Prop for C08 {
         "proptest: chains of 1..8 (quick) / 1..16 (thorough) hops over 1..17 modules (gates may share modules, gates taken from clusters of size 1..3), \
          built by one connect call per hop in a generated permutation and orientation plus repeated calls in either orientation, channels (none / \
          latency / bitrate+latency) on a generated subset of hops, sends from both endpoints with send() and send_in() (also simultaneously in opposite directions; \
-         some followed at once by a second message that has to wait in the queueing channels: that one is checked for exactly-once delivery, module, gate and header only), a delayed send requested before its chain is connected (second small simulation), an attempted \
+         some followed at once by a second message that has to wait in the queueing channels: that one is checked for exactly-once delivery, module, gate and header only), a delayed send requested before its chain is connected, a send from the start-up stage of a restart and a burst over a byte-bounded queue that overflowed before (small extra simulations over one or two hops), an attempted \
          third connection on a transit gate under catch_unwind. Oracle: exactly one delivery per send at the owner of the far endpoint at send time + \
          sum of per-hop (len*8/bitrate + latency); header sender/receiver ids and last_gate; per-hop probes in chain order at the cumulative times; \
          gate kinds, path_iter from both ends (exact mirror), next_gate, path_end; third peer rejected with the documented panic and chain intact. \
@@ -624,10 +717,12 @@ impl Prop for C08 {
                     proptest::collection::vec(send.clone(), 0..5),
                     proptest::option::weighted(0.4, any::<u16>()),
                     proptest::option::weighted(0.2, (any::<u16>(), any::<bool>(), any::<bool>())),
+                    proptest::option::weighted(0.1, 0u8..200),
                 )
             })
-            .prop_map(|(modules, gates, order, first, repeats, sends, third, late_connect)| Case {
+            .prop_map(|(modules, gates, order, first, repeats, sends, third, late_connect, restart_and_bounded_queue)| Case {
                 late_connect,
+                restart_and_bounded_queue,
                 modules,
                 gates,
                 order,
